@@ -56,6 +56,11 @@ pub struct Case {
     /// after delivery i+1 (sequential deliveries, late acknowledgement)
     #[serde(default)]
     pub defer_acks: Vec<bool>,
+    /// the node keeps only its last 2 records in memory, and at the end of the history the tracked
+    /// record is pushed out of that read cache and observed again: what the node HOLDS is what it
+    /// serves from disk, not what it last had in memory
+    #[serde(default)]
+    pub cold_read: bool,
 }
 
 fn path_strategy() -> impl Strategy<Value = Path> {
@@ -93,9 +98,10 @@ pub fn case_strategy() -> BoxedStrategy<Case> {
                 proptest::collection::vec(prop_oneof![3 => Just(false), 1 => Just(true)], 26),
                 proptest::collection::vec(any::<u16>(), 0..vh_core::depth(24, 64)),
                 proptest::collection::vec(prop_oneof![2 => Just(false), 1 => Just(true)], 26),
+                prop_oneof![2 => Just(false), 1 => Just(true)],
             )
         })
-        .prop_map(|(kind, deliveries, overlap, sched, defer_acks)| Case { kind, deliveries, overlap, sched, defer_acks })
+        .prop_map(|(kind, deliveries, overlap, sched, defer_acks, cold_read)| Case { kind, deliveries, overlap, sched, defer_acks, cold_read })
         .boxed()
 }
 
@@ -207,7 +213,7 @@ impl World {
     fn proof_for(&mut self, kind: Kind, xorname: xor_name::XorName, seed: u8) -> ProofOfPayment {
         let mut pl = payload(kind, 0);
         pl.xorname = xorname;
-        let pc = PayCase { kind, paid: true, prior: 0, rt_peers: 0, s: SFault::Ok, p: true, k: KFault::Ok, e: EFault::Ok, o: [true; 3], rpc: Default::default(), a: true, own_pos: 0, seed };
+        let pc = PayCase { kind, paid: true, prior: 0, rt_peers: 0, s: SFault::Ok, p: true, k: KFault::Ok, e: EFault::Ok, o: [true; 3], rpc: Default::default(), a: true, own_pos: 0, seed, prior_other_kind: false };
         build_proof(&pc, &mut self.cl, &pl).0
     }
 
@@ -361,7 +367,7 @@ pub fn check(case: &Case, ctx: &mut Ctx) {
         Kind::Reg => fix::register_key(FOREIGN, REG_META),
         _ => fix::scratchpad_key(FOREIGN),
     };
-    let mut w = World { cl: Cluster::new(&[1], None), key, random_key: RecordKey::new(&fix::h32("c07-random", &[1])), foreign_key, reg_ops: reg_ops() };
+    let mut w = World { cl: Cluster::new(&[1], if case.cold_read { Some((16 * 1024, 2)) } else { None }), key, random_key: RecordKey::new(&fix::h32("c07-random", &[1])), foreign_key, reg_ops: reg_ops() };
     let mut model = match kind {
         Kind::Pad | Kind::Chunk => Model::Pad(None),
         Kind::Tx => Model::Tx(BTreeSet::new()),
@@ -483,6 +489,26 @@ pub fn check(case: &Case, ctx: &mut Ctx) {
                 ctx.fail("scratchpad_counter_decreased", format!("{at}: counter {c} after {max_pad_counter_seen} was observed"));
             }
             max_pad_counter_seen = max_pad_counter_seen.max(*c);
+        }
+    }
+    if case.cold_read {
+        w.cl.settle();
+        let Some(warm) = w.observe(kind, ctx, "end of history") else { return };
+        for j in 0..3u64 {
+            w.cl.seed_record(0, fix::chunk_record(&fix::chunk(8_800 + j, 20 + j as usize)));
+        }
+        if w.cl.inconclusive {
+            ctx.label("inconclusive_timeout");
+            return;
+        }
+        let Some(cold) = w.observe(kind, ctx, "end of history, record read back from disk") else { return };
+        ctx.label("record_read_back_after_leaving_the_read_cache");
+        if cold != warm {
+            ctx.fail(
+                "held_version_differs_from_the_version_last_served_from_memory",
+                format!("after the history the node served {warm:?}; once three other records had pushed it out of the 2-entry read cache it serves {cold:?}"),
+            );
+            return;
         }
     }
     ctx.label(format!("kind_{kind:?}"));
